@@ -313,6 +313,19 @@ def _derives_unchanged(binc, sup, node, op, target_call, depth=0):
     return False
 
 
+# indirect calls of an io::Write method (a method path handed to a helper that calls it): id(terminator) ->
+# (fn operand, argument operands, terminator kept alive)
+_INDIRECT = {}
+
+
+def _inner_fn(t):
+    return _INDIRECT[id(t)][0] if id(t) in _INDIRECT else fn_of(t)
+
+
+def _inner_args(t):
+    return _INDIRECT[id(t)][1] if id(t) in _INDIRECT else t["args"]
+
+
 def _wrapper_methods(ctx):
     """[(method name, body, sup, inner calls, check callee ids)] for the io::Write methods of the stdout
     wrapper, each analysed on its own supergraph (helpers and closures inlined)."""
@@ -328,9 +341,18 @@ def _wrapper_methods(ctx):
             inner = []
             for n, cb, t in sup.calls():
                 f = fn_of(t) or {}
-                if f.get("trait") != "std::io::Write" or not t["args"]:
+                if f.get("trait") in ("std::ops::FnOnce", "std::ops::FnMut", "std::ops::Fn") and len(t["args"]) == 2:
+                    # `op(&mut self.inner)` where, in this method, `op` is the path `Write::flush`: a call of that
+                    # trait method with the tuple's elements as arguments
+                    ftr = strace(sup, n, t["args"][0])
+                    fop = ftr.origin[1] if ftr.origin and ftr.origin[0] == "const" else None
+                    atr = trace(cb, t["args"][1])
+                    if fop and fop.get("k") == "fn" and fop.get("trait") == "std::io::Write" and atr.origin and atr.origin[0] == "agg" and atr.origin[1]["rv"]["ops"] and all(s_[0] == "use" for s_ in atr.steps):
+                        _INDIRECT[id(t)] = (fop, atr.origin[1]["rv"]["ops"], t)
+                        f = fop
+                if f.get("trait") != "std::io::Write" or not _inner_args(t):
                     continue
-                tr = strace(sup, n, t["args"][0])
+                tr = strace(sup, n, _inner_args(t)[0])
                 if tr.origin and tr.origin[0] == "arg" and tr.origin[1] == 1 and not tr.origin_node[0] and (tr.has("field") or tr.has("agg_field")):
                     inner.append((n, cb, t))
             # the value returned by the method: walk from the return place through non-checking helpers
@@ -374,15 +396,15 @@ def r16_1(ctx):
     checks = set()
     plain = ("use", "ref", "deref", "enter_caller", "agg_field", "field")
     for name, b, sup, inner, chk, ret_tr, imp in methods:
-        same = [(n, cb, t) for n, cb, t in inner if fn_of(t)["name"] == name]
+        same = [(n, cb, t) for n, cb, t in inner if _inner_fn(t)["name"] == name]
         ok_inner = len(inner) == 1 and len(same) == 1
         ctx.ob(f"{name}:inner-same-method", ok_inner, site(b),
-               f"calls inner {name} exactly once" if ok_inner else f"inner writer calls: {[fn_of(t)['name'] for _, _, t in inner]}")
+               f"calls inner {name} exactly once" if ok_inner else f"inner writer calls: {[_inner_fn(t)['name'] for _, _, t in inner]}")
         if not same:
             continue
         inode, icb, it_ = same[0]
         args_ok = True
-        for i, a in enumerate(it_["args"][1:], start=2):
+        for i, a in enumerate(_inner_args(it_)[1:], start=2):
             tra = strace(sup, inode, a)
             if not (tra.origin and tra.origin[0] == "arg" and tra.origin[1] == i and not tra.origin_node[0] and all(s_[0] in plain for s_ in tra.steps)):
                 args_ok = False
@@ -422,7 +444,7 @@ def _check_fn(ctx):
     return [binc.by_id[c] for c in sorted(checks) if c in binc.by_id]
 
 
-@rule("R16.2", 6, "the check diverges into signal(SIGPIPE, SIG_DFL); raise(SIGPIPE) exactly on Err(kind()==BrokenPipe); silent; cannot panic", ["C16"])
+@rule("R16.2", 6, "the check diverges into signal(SIGPIPE, SIG_DFL); raise(SIGPIPE) exactly on Err(kind()==BrokenPipe); silent; cannot panic", ["C16", "C13"])
 def r16_2(ctx):
     binc = ctx.bin
     for c in _check_fn(ctx):
